@@ -85,6 +85,16 @@ def simplifier_cases(ctx, budget):
     for _ in range(budget):
         n = rng.randrange(3, 40)
         pts, fam = gen.dyadic_curve(rng, n)
+        if rng.random() < 0.2:
+            # exactly straight / flat runs sampled unevenly (one gap far wider than the rest): the simplifiers' perfect-fit fall-back path
+            gaps = [rng.choice([1, 1, 2]) for _ in range(n - 1)]
+            gaps[rng.choice([n - 2, n - 2, rng.randrange(0, n - 1)])] = rng.choice([16, 64, 1000])
+            x = np.concatenate([[0.0], np.cumsum(gaps)])
+            m = rng.choice([0.0, 0.0, -1.0, -0.5, 2.0])
+            y = m * (x - x[-1]) if m < 0 else (m * x + 3.0)
+            if n > 4 and rng.random() < 0.4:
+                y[rng.randrange(1, n - 1)] += rng.choice([1.0, 4.0])
+            pts, fam = np.column_stack([x, y]).astype(float), 'straight-uneven-x'
         which = rng.choice(['rdp', 'rdp_fixed', 'grdp', 'mp_grdp', 'min_point_rdp', 'min_point_rdp'])
         case = dict(points=pts.tolist(), simplifier=which)
         try:
@@ -107,8 +117,10 @@ def simplifier_cases(ctx, budget):
             continue
         red = [int(v) for v in reduced.tolist()]
         if not (red and red[0] == 0 and red[-1] == n - 1 and all(a < b for a, b in zip(red, red[1:]))):
-            ctx.tag('simplifier-malformed(C01 territory)')
-            continue
+            # C01 decides well-formedness; the clauses of C07 are stated for EVERY reduction a simplifier produces and are evaluated all the same
+            ctx.tag('simplifier-malformed(also C01)')
+            if not red:
+                continue
         crp = rdp.compute_removed_points(pts, reduced)
         a = [[int(u), int(v)] for u, v in np.asarray(removed).reshape(-1, 2).tolist()]
         b = [[int(u), int(v)] for u, v in np.asarray(crp).reshape(-1, 2).tolist()]
